@@ -93,18 +93,23 @@ def _same_class(engine, case, vclass):
     return None
 
 
-def _drop_op(case, k):
+def _drop_ops(case, lo, hi):
+    """Remove ops[lo:hi]; faults on removed ops go, later faults are re-addressed."""
     c = copy.deepcopy(case)
-    del c["ops"][k]
+    del c["ops"][lo:hi]
     newf = []
     for f in c.get("faults", []):
-        if f["op_index"] == k:
+        if lo <= f["op_index"] < hi:
             continue
-        if f["op_index"] > k:
-            f = dict(f, op_index=f["op_index"] - 1)
+        if f["op_index"] >= hi:
+            f = dict(f, op_index=f["op_index"] - (hi - lo))
         newf.append(f)
     c["faults"] = newf
     return c
+
+
+def _drop_op(case, k):
+    return _drop_ops(case, k, k + 1)
 
 
 def shrink(engine, case, vclass, max_exec=400, wall_s=120.0):
@@ -139,7 +144,25 @@ def shrink(engine, case, vclass, max_exec=400, wall_s=120.0):
                         progress = True
                     else:
                         k += 1
-        # 2. ops (from the end backwards, then forwards)
+        # 2. ops: chunks first (ddmin), then one at a time from the end backwards
+        size = len(best.get("ops", [])) // 2
+        while size >= 2 and budget[0] > 0:
+            hi = len(best["ops"])
+            removed = False
+            while hi - size >= 0 and len(best["ops"]) > size:
+                lo = hi - size
+                cand = _drop_ops(best, lo, hi)
+                if cand["ops"] and attempt(cand):
+                    best = cand
+                    progress = True
+                    removed = True
+                    hi = min(lo, len(best["ops"]))
+                else:
+                    hi = lo
+                if hi < size:
+                    break
+            if not removed or size > len(best["ops"]) // 2:
+                size //= 2
         k = len(best.get("ops", [])) - 1
         while k >= 0 and len(best["ops"]) > 1:
             cand = _drop_op(best, k)
@@ -353,6 +376,8 @@ def run_check(engine_cls, tier, base_seed, jobs=None, runs=None, budget_s=None, 
     samples = [r["case"] for r in ordered if "case" in r and not r.get("violations")][:2]
     if not samples:
         samples = [r["case"] for r in ordered if "case" in r][:1]
+    if hasattr(engine, "sample_view"):
+        samples = [engine.sample_view(c) for c in samples]
     evidence = {
         "property_id": engine.PROPERTY,
         "tier": tier,
